@@ -111,6 +111,23 @@ def specs(r):
     if out.get("error"):
         qs.append(("spec eq 0 1", {"what": "a thread died with an exception", "error": out["error"]}))
         return qs
+    # "a callback may ... delete other jobs, delete its own job": with ONE exec_jobs call in the scenario, a callback's
+    # delete_job of a job that was registered when the call began and that nothing else deletes succeeds (the call retires its
+    # jobs only after all callbacks have finished)
+    n_exec = sum(1 for ops in scn["threads"] for o in ops if o["op"] == "exec")
+    if n_exec == 1:
+        targets = {}
+        wipes = False
+        for j in scn["jobs"]:
+            for a in j.get("script") or []:
+                if a["op"] == "del":
+                    targets[a["key"]] = targets.get(a["key"], 0) + 1
+                elif a["op"] == "dtags":
+                    wipes = True
+        if not wipes:
+            for (op_, key_, res_) in out.get("cop_results") or []:
+                if op_ == "del" and key_ in out["init"] and targets.get(key_, 0) == 1 and res_ != "ok":
+                    qs.append(("spec eq 0 1", {"what": "a callback's delete_job of a registered job of its own scheduler failed", "key": key_, "error": res_}))
     execs = [x for x in out["records"] if x["op"] == "exec"]
     for x in execs:
         if x["result"][0] != "c":
